@@ -266,6 +266,21 @@ def edges():
             if cut == len(use) or use[cut] in ' <>,;(':
                 add('template-id', prelude + use[:cut])
                 add('template-id', prelude + use[:cut] + '\n')
+    # a member typedef / alias of a template-dependent (or plain) type used as a scope qualifier: the unwrapping loops of find_scope / find_type
+    for s_ in ['template<class T> struct A { typedef typename T::inner inner_t; typename inner_t::other y; };',
+               'template<class T> struct A { using inner_t = typename T::inner; typename inner_t::other f(); };',
+               'template<class T> struct A { typedef T self_t; typename self_t::x y; };',
+               'template<class T> struct A { typedef typename T::a a_t; typedef typename a_t::b b_t; typename b_t::c z; };',
+               'template<class T> struct A { typedef A<T> me; typename me::me::me m; };',
+               'template<class T> struct A { typedef typename T::template R<int> r_t; typename r_t::q y; };',
+               'struct S { typedef int I; I::x y; };', 'struct S { typedef S Me; Me::Me::Me *p; };', 'typedef struct Fwd F; F::x y;',
+               'template<class T> struct A { typedef const T ct; typename ct::v w; };', 'template<class T> struct A { typedef T *pt; typename pt::v w; };',
+               'template<class T> using Al = typename T::type; template<class T> struct B { typename Al<T>::x y; };',
+               'template<class T> struct A { typedef typename T::inner inner_t; int f(typename inner_t::other = typename inner_t::other()); };',
+               'template<class T> struct A { typedef typename T::inner inner_t; }; template<class T> struct B : A<T>::inner_t::base {};']:
+        add('dependent-scope', s_ + '\n')
+        add('dependent-scope', s_ + '\nA<int> inst;\n')
+        add('dependent-scope', '// ' + s_[:20] + '\n' + s_)
     # nesting depth
     for n in [50, 500, 5000]:
         add('depth', 'int x = ' + '(' * n + '1' + ')' * n + ';\n')
